@@ -1,6 +1,6 @@
 (* C14 -- any allocation failure is reported cleanly, without leak or corruption.
    Statements only; proofs in Proofs/LedgerProofs.v, LedgerOps.v, LedgerBase.v, LedgerNormalize.v, LedgerTheorems.v,
-   LedgerTransparent.v.
+   LedgerTransparent.v, LedgerRefused.v.
 
    The theorems are about the memory tier of the model (Model/Mem.v, ParseM.v, OpsM.v), which mirrors the C
    code allocation by allocation, every error exit included (gen/c14.py compares full allocation traces for
@@ -22,7 +22,8 @@
    base (create reference), free members.  NOT covered: dissect query / compose query (no memory-tier model). *)
 From Coq Require Import List NArith Permutation Lia.
 From UP Require Import Base.Chars Model.Uri Model.Mem Model.ParseM Model.OpsM
-  Proofs.LedgerProofs Proofs.LedgerOps Proofs.LedgerBase Proofs.LedgerNormalize Proofs.LedgerTheorems Proofs.LedgerTransparent.
+  Proofs.LedgerProofs Proofs.LedgerOps Proofs.LedgerBase Proofs.LedgerNormalize Proofs.LedgerTheorems Proofs.LedgerTransparent
+  Proofs.LedgerRefused.
 Import ListNotations.
 
 Theorem C14_vocabulary : forall s s',
@@ -169,11 +170,37 @@ Theorem C14_remove_base_state : forall domain_root src base s, wf s ->
 Proof. exact remove_base_m_balanced. Qed.
 Print Assumptions C14_remove_base_state.
 
+(* ---- a refused request is always reported: if the plan refused any request made during the call (the k-th,
+   for any k, whatever happens to later ones), the call returns the out-of-memory code.  With the theorems
+   above: the code is out-of-memory iff a request made during the call was refused.  No hypothesis on the
+   state or the arguments. *)
+Theorem C14_parse_refused_is_oom : forall t s, fails_between s (snd (parse_m t s)) -> fst (parse_m t s) = MMalloc.
+Proof. exact parse_m_refused_is_oom. Qed.
+Print Assumptions C14_parse_refused_is_oom.
+
+Theorem C14_make_owner_refused_is_oom : forall csize m s,
+  fails_between s (snd (make_owner_m csize m s)) -> fst (fst (make_owner_m csize m s)) = URI_ERROR_MALLOC.
+Proof. exact make_owner_m_refused_is_oom. Qed.
+Print Assumptions C14_make_owner_refused_is_oom.
+
+Theorem C14_normalize_refused_is_oom : forall csize mask m s,
+  fails_between s (snd (normalize_m csize mask m s)) -> fst (fst (normalize_m csize mask m s)) = URI_ERROR_MALLOC.
+Proof. exact normalize_m_refused_is_oom. Qed.
+Print Assumptions C14_normalize_refused_is_oom.
+
+Theorem C14_add_base_refused_is_oom : forall compat rel base s,
+  fails_between s (snd (add_base_m compat rel base s)) -> fst (fst (add_base_m compat rel base s)) = URI_ERROR_MALLOC.
+Proof. exact add_base_m_refused_is_oom. Qed.
+Print Assumptions C14_add_base_refused_is_oom.
+
+Theorem C14_remove_base_refused_is_oom : forall domain_root src base s,
+  fails_between s (snd (remove_base_m domain_root src base s)) -> fst (fst (remove_base_m domain_root src base s)) = URI_ERROR_MALLOC.
+Proof. exact remove_base_m_refused_is_oom. Qed.
+Print Assumptions C14_remove_base_refused_is_oom.
+
 (* ---- fault transparency: if the plan refuses none of the requests the call makes, the call returns what it
    returns under NoFault and leaves the same ledger, counters and trace ([np s] = s with the plan NoFault).
-   Together with "out-of-memory only if a request was refused" this is: the code is out-of-memory iff a
-   request made during the call was refused -- for the direction "refused => out-of-memory" see
-   C14_refused_means_oom_partial below.  No hypothesis on the state or the arguments. *)
+   No hypothesis on the state or the arguments. *)
 Theorem C14_parse_transparent : forall t s, ~ fails_between s (snd (parse_m t s)) ->
   parse_m t (np s) = (fst (parse_m t s), np (snd (parse_m t s))).
 Proof. exact parse_m_fault_transparent. Qed.
